@@ -16,17 +16,32 @@ ecc check together with the parity the decoder returned. -/
 theorem C04_block (O : Ops) (fast : Bool) (b : AsmBlock) :
     (processBlock O fast b).1 = b.msg ∨ O.H (processBlock O fast b).1 = b.hash ∨
       ∃ e', O.chk b.k (processBlock O fast b).1 e' = true := by
-  sorry
+  rcases processBlock_cases O fast b with h | h | ⟨m', e', _, hc, h⟩
+  · exact Or.inl (by rw [h])
+  · exact Or.inl (by rw [h])
+  · rw [h]
+    rcases hc with hc | hc
+    · exact Or.inr (Or.inl hc)
+    · exact Or.inr (Or.inr ⟨e', hc⟩)
 
 /-- A block that still matches its stored hash is never altered in the default checking mode. -/
 theorem C04_intact_untouched (O : Ops) (b : AsmBlock) (h : O.H b.msg = b.hash) :
     processBlock O true b = (b.msg, .intact) := by
-  sorry
+  have hn : needsRepair O true b = false := by
+    simp only [needsRepair, h, ne_eq, not_true_eq_false, decide_false, Bool.not_true,
+      Bool.false_and, Bool.or_false]
+  unfold processBlock
+  rw [hn]
+  rfl
 
 /-- A block reported unrepairable is copied through unchanged. -/
 theorem C04_failed_copied (O : Ops) (fast : Bool) (b : AsmBlock)
     (h : (processBlock O fast b).2 = .failed) : (processBlock O fast b).1 = b.msg := by
-  sorry
+  rcases processBlock_cases O fast b with h1 | h1 | ⟨m', e', _, _, h1⟩
+  · rw [h1]
+  · rw [h1]
+  · rw [h1] at h
+    cases h
 
 /-- decoders return a message of the length they were given (the only thing assumed of them) -/
 def DecLen (O : Ops) : Prop := ∀ k m e m' e', O.dec k m e = some (m', e') → m'.length = m.length
@@ -37,14 +52,23 @@ theorem C04_length_header (O : Ops) (hlen : DecLen O) (fast : Bool) (thr k hashL
     (content track out : Bytes)
     (h : (correctHeaderFile O fast thr k hashLen mbs readLen content track).output = some out) :
     out.length = content.length := by
-  sorry
+  rw [correctHeaderFile_output O fast thr k hashLen mbs readLen content track out h,
+    List.length_append, header_body_length O hlen, List.length_drop]
+  have := assembleHeader_msgs_length k hashLen mbs readLen content track (content.length + 1) 0 0
+  simp only [List.length_take] at this
+  omega
 
 /-- Whole-file tool: same. -/
 theorem C04_length_whole (O : Ops) (hlen : DecLen O) (fast : Bool) (thr : Nat) (kOf : Nat → Nat)
     (hashLen mbs : Nat) (content track out : Bytes)
     (h : (correctWholeFile O fast thr kOf hashLen mbs content track).output = some out) :
     out.length = content.length := by
-  sorry
+  rw [correctWholeFile_output O fast thr kOf hashLen mbs content track out h,
+    List.length_append, List.length_drop]
+  have h1 := whole_body_length_le O hlen fast thr
+    (assemble kOf hashLen mbs content track (content.length + 1) 0 0)
+  have h2 := assemble_msgs_length kOf hashLen mbs content track (content.length + 1) 0 0
+  omega
 
 /-- Header tool, partial recovery: the output is the block-wise concatenation where every block is
 either the input block or the committed repair of that block, followed by the untouched rest. -/
@@ -56,7 +80,25 @@ theorem C04_blockwise_header (O : Ops) (fast : Bool) (thr k hashLen mbs readLen 
       out = ws.flatten ++ content.drop ((blocks.map (·.msg)).flatten).length ∧
       ∀ i (hi : i < blocks.length), ws[i]? = some blocks[i].msg ∨
         ws[i]? = some (processBlock O fast blocks[i]).1 := by
-  sorry
+  intro blocks
+  have hle := runLoop_written_length_le O fast thr blocks
+  refine ⟨(runLoop O fast thr blocks).written ++
+    (blocks.drop (runLoop O fast thr blocks).written.length).map (·.msg), ?_, ?_, ?_⟩
+  · simp only [List.length_append, List.length_map, List.length_drop]
+    omega
+  · exact correctHeaderFile_output O fast thr k hashLen mbs readLen content track out h
+  · intro i hi
+    by_cases hiw : i < (runLoop O fast thr blocks).written.length
+    · right
+      obtain ⟨b, hb, hw⟩ := runLoop_written_getElem? O fast thr blocks i hiw
+      rw [List.getElem?_eq_getElem hi, Option.some.injEq] at hb
+      rw [List.getElem?_append_left hiw, hw, hb]
+    · left
+      rw [List.getElem?_append_right (by omega), List.getElem?_map, List.getElem?_drop,
+        show (runLoop O fast thr blocks).written.length +
+          (i - (runLoop O fast thr blocks).written.length) = i by omega,
+        List.getElem?_eq_getElem hi]
+      rfl
 
 /-- Whole-file tool, partial recovery: a prefix of the blocks, each either the input block or its
 committed repair, followed by the rest of the input file verbatim. -/
@@ -67,7 +109,11 @@ theorem C04_blockwise_whole (O : Ops) (fast : Bool) (thr : Nat) (kOf : Nat → N
     ∃ ws : List Bytes, ws.length ≤ blocks.length ∧
       out = ws.flatten ++ content.drop ws.flatten.length ∧
       ∀ i, i < ws.length → ∃ b, blocks[i]? = some b ∧ ws[i]? = some (processBlock O fast b).1 := by
-  sorry
+  intro blocks
+  refine ⟨(runLoop O fast thr blocks).written, runLoop_written_length_le O fast thr blocks, ?_, ?_⟩
+  · exact correctWholeFile_output O fast thr kOf hashLen mbs content track out h
+  · intro i hi
+    exact runLoop_written_getElem? O fast thr blocks i hi
 
 /-- A file in which some processed block was reported unrepairable is never counted as completely
 repaired (both tools)… -/
@@ -75,12 +121,12 @@ theorem C04_failed_not_complete (O : Ops) (fast : Bool) (thr : Nat) (blocks : Li
     (i : Nat) (hi : i < blocks.length) (hproc : i < (runLoop O fast thr blocks).written.length)
     (hf : (processBlock O fast blocks[i]).2 = .failed) :
     (runLoop O fast thr blocks).partialFail = true := by
-  sorry
+  exact runLoop_partialFail O fast thr blocks i hi hproc hf
 
 /-- … and a run with a corrupted file that is not completely repaired exits non-zero. -/
 theorem C04_exit (rs : List FileResult) (hwf : ∀ r ∈ rs, r.complete = true → r.corrupted = true)
     (h : ∃ r ∈ rs, r.corrupted = true ∧ r.complete = false) : exitStatus rs = 1 := by
-  sorry
+  exact exitStatus_one rs hwf h
 
 /-- well-formedness used by `C04_exit` holds for both tools -/
 theorem C04_results_wf (O : Ops) (fast : Bool) (thr k hashLen mbs readLen : Nat) (kOf : Nat → Nat)
@@ -89,6 +135,18 @@ theorem C04_results_wf (O : Ops) (fast : Bool) (thr k hashLen mbs readLen : Nat)
       (correctHeaderFile O fast thr k hashLen mbs readLen content track).corrupted = true) ∧
     ((correctWholeFile O fast thr kOf hashLen mbs content track).complete = true →
       (correctWholeFile O fast thr kOf hashLen mbs content track).corrupted = true) := by
-  sorry
+  constructor
+  · unfold correctHeaderFile
+    simp only
+    split
+    · intro _; rfl
+    · intro h; cases h
+  · unfold correctWholeFile
+    simp only
+    split
+    · split
+      · intro _; rfl
+      · intro h; cases h
+    · intro h; cases h
 
 end Pff.Ecc
